@@ -42,6 +42,17 @@ func u32gen() *rapid.Generator[uint64] {
 	})
 }
 
+// entgen draws an enterprise number: half of the time from a small pool, so that several vendor options of one
+// message carry the same number (a look-up by number then meets more than one match).
+func entgen() *rapid.Generator[uint64] {
+	return rapid.Custom(func(t *rapid.T) uint64 {
+		if rapid.Bool().Draw(t, "entpool") {
+			return rapid.SampledFrom([]uint64{9, 9, 1271, 2636, 0, 0xffffffff}).Draw(t, "entnum")
+		}
+		return u32gen().Draw(t, "entany")
+	})
+}
+
 func addr16(t *rapid.T, label string) []byte {
 	switch rapid.IntRange(0, 4).Draw(t, label+"kind") {
 	case 4: // IPv4-mapped (::ffff:a.b.c.d): Go's net.IP treats these 16-byte values as IPv4 in To4()
@@ -243,13 +254,13 @@ func (g *v6gen) opt(t *rapid.T, code uint16, nest int) refv6.Opt {
 			o.B = append(o.B, smallBytes(t, "uc", 40))
 		}
 	case "vendorclass":
-		o.N = []uint64{u32gen().Draw(t, "ent")}
+		o.N = []uint64{entgen().Draw(t, "ent")}
 		n := rapid.IntRange(1, 3).Draw(t, "nvc")
 		for i := 0; i < n; i++ {
 			o.B = append(o.B, smallBytes(t, "vc", 40))
 		}
 	case "vendoropts":
-		o.N = []uint64{u32gen().Draw(t, "ent")}
+		o.N = []uint64{entgen().Draw(t, "ent")}
 		n := rapid.IntRange(0, 3).Draw(t, "nvo")
 		for i := 0; i < n; i++ {
 			o.Sub = append(o.Sub, refv6.Opt{Code: rapid.SampledFrom([]uint16{1, 2, 3, 9, 24, 65535}).Draw(t, "vocode"), Typ: "opaque", B: [][]byte{smallBytes(t, "vo", 40)}})
